@@ -219,6 +219,8 @@ class SimLoop(base_events.BaseEventLoop):
 
     def fd_ready(self, fd):
         """called by the world when `fd` becomes readable"""
+        if self._ready_fds is None:
+            self._ready_fds = []
         self._ready_fds.append(fd)
 
     _ready_fds = None
@@ -259,18 +261,20 @@ class SimLoop(base_events.BaseEventLoop):
                     handle = heapq.heappop(self._scheduled)
                     handle._scheduled = False
                 t_timer = self._scheduled[0]._when if self._scheduled else None
-                t_world = world.next_event_time()
+                if t_timer is not None and t_timer <= world.now:
+                    break
                 if self.yield_hook is not None:
-                    # other processes may make progress instead
-                    if self.yield_hook("idle", t_timer):
-                        continue
+                    # several simulated processes: the scheduler lets others run
+                    # and advances the clock when everybody is idle
+                    self.yield_hook("idle", t_timer)
+                    continue
+                t_world = world.next_event_time()
                 if t_timer is None and t_world is None:
                     raise SimDeadlock(f"{self.name}: nothing can happen any more")
                 if t_world is not None and (t_timer is None or t_world <= t_timer):
                     world.run_next_event()
                 else:
-                    if t_timer > world.now:
-                        world.now = t_timer
+                    world.now = t_timer
                     break
 
         # (3) I/O callbacks: one datagram per transport, arrival order inside a
